@@ -967,6 +967,7 @@ func (s *Store[K, V]) processSecondary() {
 			return
 		case item = <-s.secondaryCacheBuf:
 		}
+		verifYield(31)
 		tk := item.shard.mu.RLock()
 		// first double check key still exists in map,
 		// not exist means key already deleted by Delete API
@@ -997,6 +998,7 @@ func (s *Store[K, V]) processSecondary() {
 		} else {
 			item.shard.mu.RUnlock(tk)
 		}
+		verifYield(32)
 	}
 }
 
